@@ -267,25 +267,55 @@ Init == /\ pc = "start" /\ res = None
                 \/ (op = "xoru" /\ a \in 0..(2 ^ (W - 1) - 1) /\ b \in {W \div 2, W - 1, W})     \* b = width U of the unsigned kind; a < 2^U
            ELSE op = "+" /\ a = 0 /\ b = 0
 Set(r) == res' = r /\ pc' = "done" /\ UNCHANGED <<op, a, b>>
-F == FastBinary(op, a, b, W)
-\* one action per branch of int64Const.binaryOp / unaryOp
-AddFast == pc = "start" /\ op = "+" /\ ~F.big /\ Set(F)
-AddPromote == pc = "start" /\ op = "+" /\ F.big /\ Set(F)
-SubFast == pc = "start" /\ op = "-" /\ ~F.big /\ Set(F)
-SubPromote == pc = "start" /\ op = "-" /\ F.big /\ Set(F)
-MulZero == pc = "start" /\ op = "*" /\ (a = 0 \/ b = 0) /\ Set(F)
-MulFast == pc = "start" /\ op = "*" /\ a # 0 /\ b # 0 /\ ~F.big /\ Set(F)
-MulPromote == pc = "start" /\ op = "*" /\ a # 0 /\ b # 0 /\ F.big /\ Set(F)
-DivZero == pc = "start" /\ op \in {"/", "%"} /\ b = 0 /\ Set(F)
-DivFast == pc = "start" /\ op = "/" /\ b # 0 /\ Set(F)
-RemFast == pc = "start" /\ op = "%" /\ b # 0 /\ Set(F)
-NegMin == pc = "start" /\ op = "neg" /\ a = Lo /\ Set(FastNeg(a, W))
-NegFast == pc = "start" /\ op = "neg" /\ a # Lo /\ Set(FastNeg(a, W))
-XorSigned == pc = "start" /\ op = "xors" /\ Set(FastXorSigned(a))
-XorUnsFast == pc = "start" /\ op = "xoru" /\ a < 2 ^ b /\ ~FastXorUnsigned(a, b, W).big /\ Set(FastXorUnsigned(a, b, W))
-XorUnsPromote == pc = "start" /\ op = "xoru" /\ a < 2 ^ b /\ FastXorUnsigned(a, b, W).big /\ Set(FastXorUnsigned(a, b, W))
+\* one action per branch of int64Const.binaryOp / unaryOp; G is the branch condition, R the value the branch computes
+ActionNames == {"AddFast", "AddPromote", "SubFast", "SubPromote", "MulZero", "MulFast", "MulPromote", "DivZero", "DivFast", "RemFast",
+                "NegMin", "NegFast", "XorSigned", "XorUnsFast", "XorUnsPromote"}
+G(act, o, x, y) ==
+  LET f == FastBinary(o, x, y, W) u == FastXorUnsigned(x, y, W) IN
+  CASE act = "AddFast" -> o = "+" /\ ~f.big
+    [] act = "AddPromote" -> o = "+" /\ f.big
+    [] act = "SubFast" -> o = "-" /\ ~f.big
+    [] act = "SubPromote" -> o = "-" /\ f.big
+    [] act = "MulZero" -> o = "*" /\ (x = 0 \/ y = 0)
+    [] act = "MulFast" -> o = "*" /\ x # 0 /\ y # 0 /\ ~f.big
+    [] act = "MulPromote" -> o = "*" /\ x # 0 /\ y # 0 /\ f.big
+    [] act = "DivZero" -> o \in {"/", "%"} /\ y = 0
+    [] act = "DivFast" -> o = "/" /\ y # 0
+    [] act = "RemFast" -> o = "%" /\ y # 0
+    [] act = "NegMin" -> o = "neg" /\ x = Lo
+    [] act = "NegFast" -> o = "neg" /\ x # Lo
+    [] act = "XorSigned" -> o = "xors"
+    [] act = "XorUnsFast" -> o = "xoru" /\ x < 2 ^ y /\ ~u.big
+    [] act = "XorUnsPromote" -> o = "xoru" /\ x < 2 ^ y /\ u.big
+R(o, x, y) == CASE o \in BinOpsM -> FastBinary(o, x, y, W) [] o = "neg" -> FastNeg(x, W) [] o = "xors" -> FastXorSigned(x)
+                [] o = "xoru" -> FastXorUnsigned(x, y, W)
+Act(name) == pc = "start" /\ G(name, op, a, b) /\ Set(R(op, a, b))
+AddFast == Act("AddFast")
+AddPromote == Act("AddPromote")
+SubFast == Act("SubFast")
+SubPromote == Act("SubPromote")
+MulZero == Act("MulZero")
+MulFast == Act("MulFast")
+MulPromote == Act("MulPromote")
+DivZero == Act("DivZero")
+DivFast == Act("DivFast")
+RemFast == Act("RemFast")
+NegMin == Act("NegMin")
+NegFast == Act("NegFast")
+XorSigned == Act("XorSigned")
+XorUnsFast == Act("XorUnsFast")
+XorUnsPromote == Act("XorUnsPromote")
 Next == AddFast \/ AddPromote \/ SubFast \/ SubPromote \/ MulZero \/ MulFast \/ MulPromote \/ DivZero \/ DivFast \/ RemFast
         \/ NegMin \/ NegFast \/ XorSigned \/ XorUnsFast \/ XorUnsPromote
+\* branches that no operand pair of the explored space reaches (TLC's -coverage runs out of memory on these recursive
+\* operators, so non-vacuity of every action is computed here directly and printed)
+OpOf(act) == CASE act \in {"AddFast", "AddPromote"} -> "+" [] act \in {"SubFast", "SubPromote"} -> "-"
+               [] act \in {"MulZero", "MulFast", "MulPromote"} -> "*" [] act = "DivFast" -> "/" [] act \in {"DivZero", "RemFast"} -> "%"
+               [] act \in {"NegMin", "NegFast"} -> "neg" [] act = "XorSigned" -> "xors" [] OTHER -> "xoru"
+ActionsNeverTaken == {act \in ActionNames :
+                        ~\E x \in Lo..Hi : \E y \in (IF OpOf(act) = "xoru" THEN {W \div 2, W - 1, W} ELSE Lo..Hi) :
+                            (OpOf(act) # "xoru" \/ x >= 0) /\ G(act, OpOf(act), x, y)}
+ASSUME Mode = "mc" => PrintT(<<"actions_never_taken", ActionsNeverTaken>>)
 
 \* the reference on the same operands (untyped integer constants)
 RefOf == CASE op \in BinOpsM -> IntBinary(op, "u.int", FromInt(a), FromInt(b))
